@@ -10,14 +10,18 @@ RULE = ("generated transition systems (1-3 bit-vector states of width 1-4, optio
         "Per case: the command stream recorded from the real UnrollSmtEncoding by a recording SolverContext, the signal order and use "
         "counts of analyze_for_serialization, get_signal_at of every state/input/constraint/bad state at every step, the SMT-LIB text "
         "(patronus' serialize_cmd; every 10th case additionally through the real SmtLibSolverCtx + replay file) fed to z3 and cvc5, and "
-        "three random executions. distinct = distinct (system, entry, depth) triples")
+        "three random executions; for the first of them z3 also evaluates the REAL SMT-LIB text (declared constants pinned to the run, "
+        "get-value of the step symbols) and the values are compared with the execution. Shapes added after seeded escapes: delay registers "
+        "(init == next, a state or an input expression), a shared operand before a dependent shared operand. "
+        "distinct = distinct (system, entry, depth) triples")
 ASSUMPTIONS = [
     "the Gallina model Model/Analysis.v + Model/Encoding.v mirrors analysis.rs / encoding.rs (hand-written; tied by differential execution: "
     "signal order, use counts, per-block command multisets, get_signal_at)",
     "node identity in the expression store is modelled by structural equality of trees (property C12)",
     "the default name __n<index> of an unnamed signal is taken from the implementation (the store index is not modelled); the theorems "
     "assume that signal/state names are pairwise distinct and contain no '@'",
-    "bodies of define-fun commands are compared as expression trees; their SMT-LIB text is the subject of C05 (here it is only fed to z3/cvc5)",
+    "bodies of define-fun commands are compared as expression trees; their SMT-LIB text is the subject of C05; here it is fed to z3/cvc5 "
+    "for acceptance and, for one run per case, evaluated by z3 (bit-vector step symbols only; array-valued symbols are not read back)",
     "cvc5 refuses ((as const ..) t) for a non-value t: such scripts are judged by z3 and the strict checker only",
 ]
 TRUSTED = ["ocaml/driver/c04.ml: classification of a strict-check failure into a stable key; construction of the base valuation from the "
